@@ -255,12 +255,15 @@ def run(ctx: Ctx) -> None:
     rule_own_registers(ctx)
     rule_edge_keys(ctx)
     rule_order_compile(ctx)
+    from ..rules import loops
+    loops.rule_iter_snapshot(ctx, DAG, "CircuitDAG")
     ctx.floor("own.dag", 9)
     ctx.floor("own.registers", 6)
     ctx.floor("edge.keys", 4)
 
 
 KNOCKOUTS = [
+    Knockout("wrapper-live-iteration", DAG, sub_once('wrapper_list = self.node_dict["OneQubitGateWrapper"].copy()', 'wrapper_list = self.node_dict["OneQubitGateWrapper"]'), "iter.snapshot", "iterated element"),
     Knockout("C1-drop-edge-dict-remove", DAG, sub_once("        self._edge_dict_remove(reg_type, edge_to_remove)\n        self.dag.remove_edges_from", "        self.dag.remove_edges_from"),
              "own.dag", "_remove_edge"),
     Knockout("C1-solver-raw-remove", "graphiq/solvers/evolutionary_solver.py", sub_once("        circuit.remove_op(node)\n", "        circuit.dag.remove_node(node)\n"),
